@@ -11,13 +11,28 @@ int main(void)
       MLR(x, y, m, NULL);
       pr_matrix("b", m->b); pr_dvector("ymean", m->ymean); pr_matrix("recalc", m->recalculated_y); pr_matrix("resid", m->recalc_residuals);
       pr_dvector("r2", m->r2y_model); pr_dvector("sdec", m->sdec);
-      initMatrix(&py); MLRPredictY(xnew, NULL, m, py, NULL, NULL, NULL); pr_matrix("pred_new", py); DelMatrix(&py);
+      reuse_mask = 0;
+      initMatrix(&py); MLRPredictY(xnew, NULL, m, py, NULL, NULL, NULL); pr_matrix("pred_new", py);
+      { matrix *c = dup_matrix(py); MLRPredictY(xnew, NULL, m, py, NULL, NULL, NULL); RB(0, same_m(py, c));
+        junk_m(py); MLRPredictY(xnew, NULL, m, py, NULL, NULL, NULL); RB(0, same_m(py, c)); DelMatrix(&c); }
+      DelMatrix(&py);
+      pr_long("reuse_bad", reuse_mask);
       DelMLRModel(&m); DelMatrix(&x); DelMatrix(&y); DelMatrix(&xnew);
     }
     else if(!strcmp(op, "square")){
       matrix *a = rd_matrix(), *inv, *lu, *pinv;
-      initMatrix(&inv); MatrixInversion(a, inv); pr_matrix("gj_inverse", inv); DelMatrix(&inv);
-      initMatrix(&lu); MatrixLUInversion(a, lu); pr_matrix("lu_inverse", lu); DelMatrix(&lu);
+      reuse_mask = 0;
+      initMatrix(&inv); MatrixInversion(a, inv); pr_matrix("gj_inverse", inv);
+      initMatrix(&lu); MatrixLUInversion(a, lu); pr_matrix("lu_inverse", lu);
+      { /* the same inversions into outputs that hold a result / junk, and in place (input and output the same object) */
+        matrix *c = dup_matrix(inv), *a2;
+        MatrixInversion(a, inv); RB(0, same_m(inv, c)); junk_m(inv); MatrixInversion(a, inv); RB(0, same_m(inv, c));
+        a2 = dup_matrix(a); MatrixInversion(a2, a2); RB(1, same_m(a2, c)); DelMatrix(&a2); DelMatrix(&c);
+        c = dup_matrix(lu);
+        MatrixLUInversion(a, lu); RB(2, same_m(lu, c)); junk_m(lu); MatrixLUInversion(a, lu); RB(2, same_m(lu, c));
+        a2 = dup_matrix(a); MatrixLUInversion(a2, a2); RB(3, same_m(a2, c)); DelMatrix(&a2); DelMatrix(&c); }
+      DelMatrix(&inv); DelMatrix(&lu);
+      pr_long("reuse_bad", reuse_mask);
       if(a->row <= 8) pr_double("det", MatrixDeterminant(a));
       DelMatrix(&a);
     }
@@ -35,22 +50,36 @@ int main(void)
     else if(!strcmp(op, "ols")){
       matrix *z = rd_matrix(); dvector *y = rd_dvector(), *c; initDVector(&c);
       OrdinaryLeastSquares(z, y, c); pr_dvector("coef", c);
+      reuse_mask = 0;
+      { dvector *k = dup_dvector(c); OrdinaryLeastSquares(z, y, c); RB(0, same_v(c, k));
+        junk_v(c); OrdinaryLeastSquares(z, y, c); RB(0, same_v(c, k)); DelDVector(&k); }
+      pr_long("reuse_bad", reuse_mask);
       DelDVector(&c); DelDVector(&y); DelMatrix(&z);
     }
     else if(!strcmp(op, "pinv")){
       matrix *a = rd_matrix(), *p; initMatrix(&p);
       MatrixMoorePenrosePseudoinverse(a, p); pr_matrix("pinv", p);
+      reuse_mask = 0;
+      { matrix *k = dup_matrix(p); junk_m(p); MatrixMoorePenrosePseudoinverse(a, p); RB(0, same_m(p, k)); DelMatrix(&k); }
+      pr_long("reuse_bad", reuse_mask);
       DelMatrix(&p); DelMatrix(&a);
     }
     else if(!strcmp(op, "eig")){
       matrix *a = rd_matrix(), *v; dvector *e; initMatrix(&v); initDVector(&e);
       EVectEval(a, e, v); pr_dvector("eval", e); pr_matrix("evect", v);
+      reuse_mask = 0;
+      { dvector *ke = dup_dvector(e); matrix *kv = dup_matrix(v); junk_v(e); junk_m(v); EVectEval(a, e, v); RB(0, same_v(e, ke)); RB(1, same_m(v, kv)); DelDVector(&ke); DelMatrix(&kv); }
+      pr_long("reuse_bad", reuse_mask);
       DelMatrix(&v); DelDVector(&e); DelMatrix(&a);
     }
     else if(!strcmp(op, "svd")){
       matrix *a = rd_matrix(), *u, *s, *vt;
       initMatrix(&u); initMatrix(&s); initMatrix(&vt);
       SVDlapack(a, u, s, vt); pr_matrix("u", u); pr_matrix("s", s); pr_matrix("vt", vt);
+      reuse_mask = 0;
+      { matrix *ku = dup_matrix(u), *ks = dup_matrix(s), *kv = dup_matrix(vt); junk_m(u); junk_m(s); junk_m(vt);
+        SVDlapack(a, u, s, vt); RB(0, same_m(u, ku)); RB(1, same_m(s, ks)); RB(2, same_m(vt, kv)); DelMatrix(&ku); DelMatrix(&ks); DelMatrix(&kv); }
+      pr_long("reuse_bad", reuse_mask);
       DelMatrix(&u); DelMatrix(&s); DelMatrix(&vt); DelMatrix(&a);
     }
     else{ fprintf(stderr, "unknown op %s\n", op); return 2; }
